@@ -73,6 +73,8 @@ def main():
             print(p, rc, [l[:160] for l in lines if not l.startswith("KNOWN")], (replay or {}).get("what"))
     finally:
         sh("git -C /repo checkout -- .")
+        # the evidence files just written describe the changed tree: put the committed ones back
+        sh("git -C %s checkout -- evidence" % VERIF)
     meta["checks"] = results
     d = os.path.join(VERIF, "seeded", sid)
     os.makedirs(d, exist_ok=True)
